@@ -445,6 +445,7 @@ type c08Out struct {
 	timeouts int
 	reads    int
 	rem      int // bytes of the script the client never read (after Do and the follow-up Ping)
+	onWrites int // read timeouts whose deadline also covered writes
 }
 
 func (o c08Out) String() string {
@@ -468,6 +469,14 @@ func c08ErrString(err error) string {
 
 const c08ReadTimeout = 30 * time.Millisecond
 
+// the deadline-near-the-gap run: ReadTimeout c08TightRT, the caller's context ends c08TightDeadline after Do begins
+// (between one and two read timeouts): one silence in front of a packet is retried and the packet, which comes right
+// after it, is read long before the context ends
+const c08TightRT = 400 * time.Millisecond
+const c08TightDeadline = 700 * time.Millisecond
+
+var c08Tight bool
+
 // c08RunDo connects over the scripted connection, runs one query and a follow-up Ping.
 func c08RunDo(st *c08Stream, evs []c08Ev, pattern []int, realtime bool) (out c08Out) {
 	defer func() {
@@ -481,6 +490,9 @@ func c08RunDo(st *c08Stream, evs []c08Ev, pattern []int, realtime bool) (out c08
 	rt := 5 * time.Second
 	if realtime {
 		rt = c08ReadTimeout
+	}
+	if c08Tight {
+		rt = c08TightRT
 	}
 	client, err := ch.Connect(ctx, conn, ch.Options{Compression: st.comp, ReadTimeout: rt})
 	if err != nil {
@@ -509,7 +521,13 @@ func c08RunDo(st *c08Stream, evs []c08Ev, pattern []int, realtime bool) (out c08
 			return nil
 		},
 	}
-	err = client.Do(ctx, q)
+	dctx := ctx
+	if c08Tight {
+		var dcancel context.CancelFunc
+		dctx, dcancel = context.WithTimeout(ctx, c08TightDeadline)
+		defer dcancel()
+	}
+	err = client.Do(dctx, q)
 	out.err = c08ErrString(err)
 	out.closed = client.IsClosed()
 	if perr := client.Ping(ctx); perr != nil {
@@ -519,6 +537,7 @@ func c08RunDo(st *c08Stream, evs []c08Ev, pattern []int, realtime bool) (out c08
 	}
 	conn.mu.Lock()
 	out.timeouts, out.reads = conn.timeouts, conn.reads
+	out.onWrites = conn.timeoutsOnWrites
 	conn.mu.Unlock()
 	out.rem = conn.remaining()
 	_ = client.Close()
@@ -552,6 +571,8 @@ func c08CutsSx(cuts []int) string {
 	}
 	return sx(s...)
 }
+
+var c08TightRuns int // per process: three of these runs are enough (0.4 s each)
 
 var c08GapsEveryRuns int // rotates the delivery of the gaps-every runs: at once, byte by byte, random pieces
 
@@ -686,6 +707,9 @@ func c08DoStream(h *H, st *c08Stream, budget int, gapBudget *int) {
 	run := func(sg c08Seg, realtime bool) {
 		got := c08RunDo(st, c08Events(st, sg), sg.pattern, realtime)
 		oracle := c08Compare(ref, got)
+		if oracle == "ok" && got.onWrites > 0 {
+			oracle = fmt.Sprintf("FAIL:%d read timeouts between packets expired a deadline that was armed for writes too (SetDeadline): a write in progress while the client waits for a packet fails with the read timeout", got.onWrites)
+		}
 		if oracle == "ok" && len(sg.gaps) > 0 {
 			want := 0
 			for _, k := range sg.gaps {
@@ -853,6 +877,15 @@ func c08DoStream(h *H, st *c08Stream, budget int, gapBudget *int) {
 			sg.pattern = []int{1 + h.R.Intn(7)}
 		}
 		run(sg, true)
+	}
+	// one silence in front of one packet, under a caller deadline between one and two read timeouts away: retried, and
+	// the outcome is that of the stream without the silence
+	if c08TightRuns < 3 && len(st.packets) >= 2 && ref.err == "nil" && *gapBudget > 0 {
+		c08TightRuns++
+		*gapBudget--
+		c08Tight = true
+		run(c08Seg{kind: "gap-near-deadline", gaps: map[int]int{len(st.packets) - 1: 1}}, true)
+		c08Tight = false
 	}
 	// silences in front of EVERY packet of the stream at once (one, sometimes two or three), delivered at once, byte by
 	// byte or in random pieces with short reads: the whole receive loop, timeout after timeout
